@@ -21,6 +21,11 @@ ASSUMPTIONS = [
 ]
 
 
+# deviations the statement of C01 does not speak about (they belong to C07 / C10 / C02-style checks);
+# they stay in the stream for the correspondence, but are not judged here
+NOT_C01 = {"A.ctr-equal", "A.ctr-smaller", "A.ctr-zero-vs-pos", "A.bs-without-be", "A.tb-not-supported", "A.cred-type"}
+
+
 def work(tasks, idx):
     res = Result()
     drv = Driver(Oracle()) if work.driver_ok else None
@@ -36,11 +41,11 @@ def work(tasks, idx):
         if variant % 5 == 2:
             kw["cd_extra"] = {"crossOrigin": False, "other_keys_can_be_added_here": "do not compare clientDataJSON against a template"}
         a, e, eff = faults.build_assertion(c, **kw)
-        code = _auth.eval_auth(tie, res, a, e, label=list(fs), faults_applied=eff)
+        code = _auth.eval_auth(tie, res, a, e, label=list(fs), faults_applied=eff, check_counter=False)
         res.nontrivial.add((ci, tuple(sorted(fs)), variant % 30))
         res.count(f"alg:{c.alg}")
         res.count(f"nfaults:{min(len(fs), 3)}")
-        if len(eff) == 1 and code["k"] == "accept":
+        if len(eff) == 1 and code["k"] == "accept" and list(eff)[0] not in NOT_C01:
             res.violations.append({"why": f"single fault {list(eff)[0]} accepted", "faults": list(eff),
                                    "case": __import__("harness.cases", fromlist=["x"]).auth_case(a, e), "code": code,
                                    "match": {"op": "verify_auth", "fault": list(eff)[0]}})
